@@ -155,6 +155,14 @@ def run(ck, w):
     else:
         ck.fail(o, il_body.name, "is_locked does not test GC_LOCK", "is_file argument is not the GC_LOCK constant")
 
+    o = ck.ob("C06.2d", "backup(): the block directory (the present-set snapshot used for deduplication) is opened only after Band::create "
+                        "succeeded - a collector that ran to completion before the band existed cannot have removed a block the snapshot still lists")
+    bds_ = events_of(lib, bk, "archive::Archive::block_dir") + events_of(lib, bk, "blockdir::BlockDir::open")
+    if not bds_ or not creates:
+        ck.fail(o, "backup::backup", "anchor-missing", "block_dir events=%d Band::create events=%d" % (len(bds_), len(creates)))
+    else:
+        rules.order_after_success(ck, o, bk, creates, bds_, "Band::create", "block_dir()")
+
     # ---- 3. backup side: re-check after raising its own flag -----------------------------------------------
     o = ck.ob("C06.3", "backup(): the lock is read again after Band::create succeeded and before the block directory is listed")
     ce, _, _ = rules.success_edges_union(bk, creates)
